@@ -1,4 +1,7 @@
 open Model
 let () = Driver.main [
   { Driver.name = "varint"; run = varint_run; judge = varint_judge };
+  { Driver.name = "frames"; run = frames_run; judge = frames_judge };
+  { Driver.name = "packets"; run = packets_run; judge = packets_judge };
+  { Driver.name = "pn"; run = pn_run; judge = pn_judge };
 ]
